@@ -281,6 +281,9 @@ func (j *judge) judge(all []recSpec, proms []promised, frames [][]byte) {
 	verSeen := map[int16]bool{}
 	for fi, frame := range frames {
 		j.res.FrameLens = append(j.res.FrameLens, len(frame))
+		if j.verbose {
+			fmt.Printf("  produce frame %d (%d bytes): %x\n", fi, len(frame), frame)
+		}
 		p, err := decodeProduceFrame(frame)
 		if err != nil {
 			j.viol("frame-undecodable", "produce frame %d (%d bytes): %v; first bytes %x", fi, len(frame), err, frame[:min(len(frame), 48)])
